@@ -1,6 +1,7 @@
 /-
-  Concrete witnesses (evaluated by the kernel on the executable model) of the places where the
-  bookkeeping of `ckks.Evaluator` and the content of the ciphertext disagree.  Toy moduli are used so
+  Concrete evaluations (by the kernel, on the executable model) of the calls where the bookkeeping of
+  `ckks.Evaluator` and the content of the ciphertext disagree (known findings, not repaired), and of
+  the calls repaired by the fixes C06-1 … C06-6 (now positive statements).  Toy moduli are used so
   that the numbers are readable; the harness exhibits the same behaviour on the real code
   (probes `program_precision` with the finding keys quoted below).
 -/
@@ -29,11 +30,12 @@ theorem add_int_ratio_witness :
     addElt toyP false ⟨2, 1, dy 48 0, 4⟩ ⟨2, 1, dy 16 0, 4⟩ ⟨2, 1, dy 16 0, 4⟩
       = .ok ⟨⟨2, 1, dy 48 0, 4⟩, [1, 3]⟩ := by decide +kernel
 
-/-- `C06/addsc-receiver-scale-not-set`: `AddNew(ct, 1)` with `ct.Scale = 64`, default scale 16: the
-    constant is added at scale 64 (`64 = round(1·64)`) but the output is recorded at scale 16. -/
-theorem addScalar_stale_scale_witness :
+/-- fix C06-1 (was `C06/addsc-receiver-scale-not-set`): `AddNew(ct, 1)` with `ct.Scale = 64` and a
+    receiver allocated at the default scale 16: the constant is added at scale 64 and the output is
+    recorded at scale 64. -/
+theorem addScalar_fresh_receiver_witness :
     addScalar toyP false ⟨2, 1, dy 64 0, 4⟩ ⟨2, 1, dy 16 0, 4⟩ (sd 1 0) (sd 0 0)
-      = .ok ⟨⟨2, 1, dy 16 0, 4⟩, [64, 0]⟩ := by decide +kernel
+      = .ok ⟨⟨2, 1, dy 64 0, 4⟩, [64, 0]⟩ := by decide +kernel
 
 /-- `C06/setscale-noninteger-ratio-ge2`: `SetScale(ct@16, 40)` (ratio 2.5): the content is multiplied
     by `round(2.5·1019) = 2548`, **no** prime is divided out (`16 < 40/2`), the scale is recorded as
@@ -64,31 +66,33 @@ theorem mulThenAdd_int_ratio_witness :
     mulThenAddElt toyP true .fresh ⟨2, 1, dy 16 0, 4⟩ ⟨2, 1, dy 4 0, 4⟩ ⟨2, 1, dy 16 0, 4⟩
       = .ok ⟨⟨2, 1, dy 64 0, 4⟩, [4]⟩ := by decide +kernel
 
-/-- `C06/mtasc-receiver-level-kept`: `MulThenAdd(ct@level 1, 3, out@level 2)` leaves the receiver at
-    level 2 although only the limbs `0..1` were accumulated. -/
-theorem mulThenAddScalar_level_witness :
-    (mulThenAddScalar toyP ⟨1, 1, dy 16 0, 4⟩ ⟨2, 1, dy 16 0, 4⟩ (sd 3 0) (sd 0 0)).map (fun r => r.md.level)
-      = .ok 2 := by decide +kernel
+/-- fix C06-2 (was `C06/mtasc-receiver-level-kept`, `C06/mta-receiver-degree-cut`):
+    `MulThenAdd(ct@level 1, 3, out@level 2 of degree 2)` is evaluated at level 1 and keeps degree 2. -/
+theorem mulThenAddScalar_level_degree_witness :
+    mulThenAddScalar toyP .fresh ⟨1, 1, dy 16 0, 4⟩ ⟨2, 2, dy 16 0, 4⟩ (sd 3 0) (sd 0 0)
+      = .ok ⟨⟨1, 2, dy 16 0, 4⟩, [1, 3, 0]⟩ := by decide +kernel
 
-/-- `C06/mta-receiver-degree-cut`: a degree-2 receiver is cut to `op0.Degree() = 1`. -/
-theorem mulThenAddScalar_degree_witness :
-    (mulThenAddScalar toyP ⟨2, 1, dy 16 0, 4⟩ ⟨2, 2, dy 16 0, 4⟩ (sd 3 0) (sd 0 0)).map (fun r => r.md.degree)
-      = .ok 1 := by decide +kernel
+/-- fix C06-3 (was `C06/mtasc-receiver-is-operand`): the receiver must differ from `op0`. -/
+theorem mulThenAddScalar_alias_witness :
+    mulThenAddScalar toyP .out0 ⟨2, 1, dy 16 0, 4⟩ ⟨2, 1, dy 16 0, 4⟩ (sd 1 (-1)) (sd 0 0) = .error .err := by
+  decide +kernel
 
 /-- `C06/scaleup-truncates-scale`: `ScaleUp(ct, 2.5)`: content times 2, recorded scale times 2.5. -/
 theorem scaleUp_truncation_witness :
     scaleUp toyP ⟨2, 1, dy 16 0, 4⟩ ⟨2, 1, dy 16 0, 4⟩ (dy 5 (-1))
       = .ok ⟨⟨2, 1, dy 40 0, 4⟩, [2]⟩ := by decide +kernel
 
-/-- `C06/panic:prec128-level0-constant-scaling`: with two primes per rescale a non-integer constant at
-    level 0 indexes `SubRings[-1]`. -/
-theorem mulScalar_prec128_level0_panics :
-    mulScalar toyP2 ⟨0, 1, dy 16 0, 4⟩ ⟨0, 1, dy 16 0, 4⟩ (sd 1 (-1)) (sd 0 0) = .error .panic := by
+/-- fix C06-5 (was `C06/panic:prec128-level0-constant-scaling`): with two primes per rescale a
+    non-integer constant at level 0 is an error. -/
+theorem mulScalar_prec128_level0_errors :
+    mulScalar toyP2 ⟨0, 1, dy 16 0, 4⟩ ⟨0, 1, dy 16 0, 4⟩ (sd 1 (-1)) (sd 0 0) = .error .err := by
   decide +kernel
 
-/-- `C06/panic:rescaleto-consumes-all-levels`: the loop of `RescaleTo` runs while `newLevel >= 0`. -/
-theorem rescaleTo_consumes_all_witness :
-    rescaleTo toyP ⟨1, 1, dy 1 30, 4⟩ (dy 1 0) = .error .panic := by decide +kernel
+/-- fix C06-6 (was `C06/panic:rescaleto-consumes-all-levels`): a scale of the size of `Q` and a tiny
+    minimum scale: the loop stops at level 0 (one prime consumed), `q_0` is kept. -/
+theorem rescaleTo_stops_at_level0_witness :
+    rescaleTo toyP ⟨1, 1, dy 1 30, 4⟩ (dy 1 0) = .ok ⟨⟨0, 1, sdiv (dy 1 30) (dy 1013 0), 4⟩, [1]⟩ := by
+  decide +kernel
 
 /-- a Gaussian-integer constant is not scaled; a non-integer one is scaled by the current prime. -/
 theorem mulScalar_witness :
